@@ -157,6 +157,19 @@ func (c *TimingCase) Normalize() {
 			c.Cfg[s].Window = 1 << 16
 		}
 	}
+	if c.Kind == "expiry" {
+		// One write buffer behind a one-byte carrier: the buffer is busy for
+		// a while after every large write; windows large enough that the
+		// small writes never need the peer to read.
+		c.Cfg[side].Buffers = 1
+		c.PipeCap = 1
+		c.Frag = []int{1}
+		for s := 0; s < 2; s++ {
+			if c.Cfg[s].Window < 4096 {
+				c.Cfg[s].Window = 4096
+			}
+		}
+	}
 	if c.PreMs < 10 {
 		c.PreMs = 10
 	}
@@ -199,6 +212,8 @@ func JudgeTiming(c *TimingCase) *TimingResult {
 		t.backlog()
 	case "mass":
 		t.mass()
+	case "expiry":
+		t.expiry()
 	default:
 		res.Fail = "unknown scenario kind " + c.Kind
 	}
@@ -896,6 +911,68 @@ func (t *timingRun) mass() {
 		}
 		if r.err != multiplexing.ErrMultiplexerClosed {
 			t.failf("%s released by %q returned %v, want ErrMultiplexerClosed", x.what, c.Release, r.err)
+			return
+		}
+	}
+}
+
+// expiry: a Write whose deadline passes while it waits for a write buffer
+// (it already holds send window) must leave the stream usable: the next Write
+// without a deadline, with send window and buffers available, must return.
+func (t *timingRun) expiry() {
+	c := t.c
+	a, ay, ok := t.streamsFor()
+	if !ok {
+		return
+	}
+	b, _, ok := t.streamsFor()
+	if !ok {
+		return
+	}
+	// The peer drains stream a so that the large writes always complete.
+	go func() {
+		buf := make([]byte, 32<<10)
+		for {
+			if _, err := ay.Read(buf); err != nil {
+				return
+			}
+		}
+	}()
+	rounds := 3 + max(c.K, 0)
+	small := make([]byte, 100)
+	for i := 0; i < rounds; i++ {
+		big := asyncCall(func() (int, error) { return a.Write(make([]byte, 30000)) })
+		if err := b.SetWriteDeadline(time.Now().Add(time.Duration(200+400*(i%4)) * time.Microsecond)); err != nil {
+			t.failf("SetWriteDeadline on an open stream returned %v", err)
+			return
+		}
+		r, ok := awaitCall(asyncCall(func() (int, error) { return b.Write(small) }), releaseBound)
+		if !ok {
+			t.failf("Write with a deadline of under 2 ms still blocked after %v", releaseBound)
+			return
+		}
+		if isErr(r.err, os.ErrDeadlineExceeded) {
+			t.res.NonTrivial = true
+		} else if r.err != nil {
+			t.failf("Write with a deadline returned (%d, %v)", r.n, r.err)
+			return
+		}
+		if err := b.SetWriteDeadline(time.Time{}); err != nil {
+			t.failf("SetWriteDeadline(zero) on an open stream returned %v", err)
+			return
+		}
+		r, ok = awaitCall(asyncCall(func() (int, error) { return b.Write(small) }), releaseBound)
+		if !ok {
+			t.failf("Write of %d bytes without a deadline, with send window available (peer window %d, under %d bytes sent), still blocked after %v; it follows a Write on the same stream that expired (round %d)",
+				len(small), c.Cfg[1-c.Side&1].window(), 200*(i+1), releaseBound, i)
+			return
+		}
+		if r.err != nil || r.n != len(small) {
+			t.failf("Write without a deadline after an expired one returned (%d, %v)", r.n, r.err)
+			return
+		}
+		if br, ok := awaitCall(big, releaseBound); !ok || br.err != nil {
+			t.failf("Write of 30000 bytes on a stream whose peer reads continuously: returned=%v err=%v", ok, br.err)
 			return
 		}
 	}
